@@ -1867,8 +1867,19 @@ def p_instanceDeclaration(p):
                         cname),
                     parser_token=p)
             p.parser.mofcomp.compile_file(file_, ns)
-            cc = p.parser.handle.GetClass(cname, namespace=ns, LocalOnly=False,
-                                          IncludeQualifiers=True)
+            try:
+                cc = p.parser.handle.GetClass(
+                    cname, namespace=ns, LocalOnly=False,
+                    IncludeQualifiers=True)
+            except CIMError as ce2:
+                raise MOFRepositoryError(
+                    msg=_format(
+                        "Cannot compile instance of {0!A} because the CIM "
+                        "repository returned an error for GetClass after "
+                        "its class was compiled from the search path",
+                        cname),
+                    parser_token=p,
+                    cim_error=ce2)
         else:
             raise MOFRepositoryError(
                 msg=_format(
